@@ -486,6 +486,126 @@ fn hunt_setops() -> Result<(), String> {
     Ok(())
 }
 
+// ---------------------------------------------------------------------------------------------------------
+// `hunt_views`: concrete counterexample search for the view properties (C11, C12 and the view part of C13), run only
+// after a failed Verus obligation: every key subset of the 7 prefixes (canonical / with leftover value-less nodes / with
+// host bits), every view root r (whole map and view_at(r)) and every query q covered by r: find / find_exact / find_lpm /
+// left / right / value / prefix / iter of TrieView and the TrieViewMut twins against an abstract map.  Queries not covered
+// by the view root are left out (known finding c12-find-ignores-view-prefix).
+// ---------------------------------------------------------------------------------------------------------
+fn hunt_views() -> Result<(), String> {
+    std::panic::set_hook(Box::new(|_| {}));
+    let mut n = 0u64;
+    let mask8 = |p: (u8, u8)| (p.0 & !(0xffu16 >> p.1) as u8, p.1);
+    let mut qs: Vec<(u8, u8)> = KEYS.to_vec();
+    qs.extend([(0x20, 3), (0x60, 3), (0xa0, 3), (0xe0, 3), (0x00, 3)]);
+    for am in 0..128u32 {
+        for (leftover, host) in [(false, 0u8), (true, 0u8), (false, 0x15u8)] {
+            let (mut m, o) = build_sub(am, leftover, host, 10);
+            let under = |r: &[u8]| -> Vec<((u8, u8), u16)> { o.iter().filter(|(k, _)| covers(r, k)).map(|(_, v)| *v).collect() };
+            let desc = format!("map {:?}{}", o.values().collect::<Vec<_>>(), if leftover { " (+ leftover value-less nodes)" } else { "" });
+            let res = std::panic::catch_unwind(std::panic::AssertUnwindSafe(|| -> Result<(), String> {
+                let mut roots: Vec<Option<(u8, u8)>> = vec![None];
+                roots.extend(KEYS.iter().map(|k| Some(*k)));
+                for root in roots.iter() {
+                    let rk: Vec<u8> = root.map(|r| okey(r)).unwrap_or_default();
+                    let rq = root.map(|r| (r.0 | (0x2a & (0xffu8 >> r.1)), r.1));      // the query carries other host bits
+                    let v0 = match rq { None => Some(m.view()), Some(r) => m.view_at(r) };
+                    let ents = under(&rk);
+                    let Some(v0) = v0 else {
+                        if !ents.is_empty() { return Err(format!("{desc}: view_at({rq:?}) is None although {ents:?} are stored below it")); }
+                        continue;
+                    };
+                    if !leftover && !rk.is_empty() && ents.is_empty() { return Err(format!("{desc}: view_at({rq:?}) exists but contains no entry (canonical map)")); }
+                    let got: Vec<((u8, u8), u16)> = v0.iter().map(|(p, v)| (*p, *v)).collect();
+                    if got != ents { return Err(format!("{desc}: view at {rq:?} iterates {got:?}, expected {ents:?}")); }
+                    if okey(mask8(*v0.prefix())) != rk { return Err(format!("{desc}: view at {rq:?} reports prefix {:?}", v0.prefix())); }
+                    let here = o.get(&rk).map(|e| e.1);
+                    if v0.value().cloned() != here { return Err(format!("{desc}: view at {rq:?}: value() = {:?}, expected {here:?}", v0.value())); }
+                    if v0.prefix_value().map(|(p, v)| (*p, *v)) != o.get(&rk).cloned() { return Err(format!("{desc}: view at {rq:?}: prefix_value() = {:?}, expected {:?}", v0.prefix_value(), o.get(&rk))); }
+                    for (side, bit) in [("left", 0u8), ("right", 1u8)] {
+                        if rk.len() >= 8 { continue; }
+                        let mut ck = rk.clone(); ck.push(bit);
+                        let want = under(&ck);
+                        let sv = if bit == 0 { v0.left() } else { v0.right() };
+                        match sv {
+                            None => if !want.is_empty() { return Err(format!("{desc}: view at {rq:?}: {side}() is None although {want:?} are stored on that side")); },
+                            Some(sv) => {
+                                let g: Vec<((u8, u8), u16)> = sv.iter().map(|(p, v)| (*p, *v)).collect();
+                                if g != want { return Err(format!("{desc}: view at {rq:?}: {side}() iterates {g:?}, expected {want:?}")); }
+                                if !leftover && want.is_empty() { return Err(format!("{desc}: view at {rq:?}: {side}() exists but is empty (canonical map)")); }
+                            }
+                        }
+                    }
+                    // a view root that is no node of the trie (a position on an edge) is left out of the find family: queries between
+                    // such a position and its node are part of the known finding c12-find-ignores-view-prefix
+                    let is_node = rk.is_empty() || leftover || o.contains_key(&rk) || {
+                        let (mut l, mut r) = (rk.clone(), rk.clone()); l.push(0); r.push(1);
+                        !under(&l).is_empty() && !under(&r).is_empty()
+                    };
+                    for q in qs.iter() {
+                        let qk = okey(mask8(*q));
+                        if !covers(&rk, &qk) || !is_node { continue; }
+                        n += 1;
+                        let qq = (q.0 | (0x2a & (0xffu8 >> q.1)), q.1);
+                        let below = under(&qk);
+                        match v0.find(qq) {
+                            None => if !below.is_empty() { return Err(format!("{desc}: view at {rq:?}: find({qq:?}) is None although {below:?} are stored below it")); },
+                            Some(f) => {
+                                let g: Vec<((u8, u8), u16)> = f.iter().map(|(p, v)| (*p, *v)).collect();
+                                if g != below { return Err(format!("{desc}: view at {rq:?}: find({qq:?}) iterates {g:?}, expected {below:?}")); }
+                                if okey(mask8(*f.prefix())) != qk { return Err(format!("{desc}: view at {rq:?}: find({qq:?}) reports prefix {:?}", f.prefix())); }
+                                if !leftover && below.is_empty() && !qk.is_empty() { return Err(format!("{desc}: view at {rq:?}: find({qq:?}) exists but is empty (canonical map)")); }
+                            }
+                        }
+                        let exact = o.get(&qk).cloned();
+                        match v0.find_exact(&qq) {
+                            None => if exact.is_some() { return Err(format!("{desc}: view at {rq:?}: find_exact({qq:?}) is None although {exact:?} is stored")); },
+                            Some(f) => {
+                                if exact.is_none() { return Err(format!("{desc}: view at {rq:?}: find_exact({qq:?}) is Some although nothing is stored there")); }
+                                let g: Vec<((u8, u8), u16)> = f.iter().map(|(p, v)| (*p, *v)).collect();
+                                if g != below || f.prefix_value().map(|(p, v)| (*p, *v)) != exact { return Err(format!("{desc}: view at {rq:?}: find_exact({qq:?}) is at {:?} and iterates {g:?}, expected {exact:?} / {below:?}", f.prefix_value())); }
+                            }
+                        }
+                        let lpm = o.iter().filter(|(k, _)| covers(&rk, k) && covers(k, &qk)).max_by_key(|(k, _)| k.len()).map(|(_, v)| *v);
+                        let got_lpm = v0.find_lpm(&qq).map(|f| f.prefix_value().map(|(p, v)| (*p, *v)));
+                        if got_lpm != lpm.map(Some) { return Err(format!("{desc}: view at {rq:?}: find_lpm({qq:?}) is positioned at {got_lpm:?}, expected {lpm:?}")); }
+                    }
+                }
+                Ok(())
+            }));
+            match res { Ok(Ok(())) => {}, Ok(Err(e)) => return Err(e), Err(_) => return Err(format!("{desc}: a view operation panicked")) }
+            // TrieViewMut twins mirror the read-only views
+            let res2 = std::panic::catch_unwind(std::panic::AssertUnwindSafe(|| -> Result<(), String> {
+                for r in KEYS.iter() {
+                    let ro: Option<Vec<((u8, u8), u16)>> = m.view_at(*r).map(|v| v.iter().map(|(p, v)| (*p, *v)).collect());
+                    let ro_val = m.view_at(*r).and_then(|v| v.prefix_value().map(|(p, v)| (*p, *v)));
+                    let mu: Option<Vec<((u8, u8), u16)>> = m.view_mut_at(*r).map(|mut v| v.iter_mut().map(|(p, v)| (*p, *v)).collect());
+                    if ro != mu { return Err(format!("{desc}: view_mut_at({r:?}).iter_mut() yields {mu:?}, view_at(..).iter() yields {ro:?}")); }
+                    let mu_val = m.view_mut_at(*r).and_then(|mut v| v.prefix_value_mut().map(|(p, v)| (*p, *v)));
+                    if ro_val != mu_val { return Err(format!("{desc}: view_mut_at({r:?}).prefix_value_mut() = {mu_val:?}, prefix_value() = {ro_val:?}")); }
+                    for q in qs.iter() {
+                        if !covers(&okey(*r), &okey(mask8(*q))) { continue; }
+                        let a = m.view_at(*r).and_then(|v| v.find_lpm(q)).map(|f| *f.prefix());
+                        let b = m.view_mut_at(*r).and_then(|v| v.find_lpm(q).ok()).map(|f| *f.prefix());
+                        if a != b { return Err(format!("{desc}: view_mut_at({r:?}).find_lpm({q:?}) is at {b:?}, the read-only view's at {a:?}")); }
+                        let a = m.view_at(*r).and_then(|v| v.find_exact(q)).map(|f| *f.prefix());
+                        let b = m.view_mut_at(*r).and_then(|v| v.find_exact(q).ok()).map(|f| *f.prefix());
+                        if a != b { return Err(format!("{desc}: view_mut_at({r:?}).find_exact({q:?}) is at {b:?}, the read-only view's at {a:?}")); }
+                        let a = m.view_at(*r).and_then(|v| v.find(*q)).map(|f| (*f.prefix(), f.iter().count()));
+                        let b = m.view_mut_at(*r).and_then(|v| v.find(*q).ok()).map(|mut f| (*f.prefix(), f.iter_mut().count()));
+                        if a != b { return Err(format!("{desc}: view_mut_at({r:?}).find({q:?}) is {b:?}, the read-only view's {a:?}")); }
+                    }
+                }
+                Ok(())
+            }));
+            match res2 { Ok(Ok(())) => {}, Ok(Err(e)) => return Err(e), Err(_) => return Err(format!("{desc}: a mutable-view operation panicked")) }
+        }
+    }
+    println!("STATS hunt_views evaluations={n}");
+    Ok(())
+}
+
 fn c04_entry_remove() -> Result<(), String> {
     let mut m: PrefixMap<P, u8> = PrefixMap::new();
     m.insert((0x80, 1), 1);
@@ -647,6 +767,7 @@ fn main() {
         ("c19_bounded", c19_bounded),
         ("hunt", hunt),
         ("hunt_setops", hunt_setops),
+        ("hunt_views", hunt_views),
         ("c04_entry_remove", c04_entry_remove),
         ("c04_entry_remove_reinsert", c04_entry_remove_reinsert),
         ("c04_view_remove", c04_view_remove),
